@@ -56,8 +56,8 @@ func fileStateObligations(c *Ctx, which string) {
 		if o.Kind == "DELETE" || o.Kind == "GONE" {
 			return true
 		}
-		// a leftover that holds no documents and is never served
-		return o.Kind == "SKIP" && !fs[".docs"] && !fs[".sdocs"]
+		// SKIP leaves the files where they are: the deletion is not finished off, whatever the leftover holds
+		return false
 	}
 	report := func(kind, rule string, st lifeState, o loaderOutcome, msg string) {
 		key := fmt.Sprintf("filestate:%s:%s:%s", rule, st.fs.String(), o.Kind)
@@ -66,6 +66,28 @@ func fileStateObligations(c *Ctx, which string) {
 			pos = st.pos
 		}
 		c.Violation(key, pos, "%s — file set %s (reached by: %s) is classified %s by the loader%s", msg, st.fs, st.trail, o.Kind, ifs(o.Why != "", " ("+o.Why+")", ""))
+	}
+	// which document file a sealed fraction opens when both exist: the Open that dominates the other
+	sealedPrefersDocs := false
+	if od := c.P.Func("(*frac.Sealed).openDocs"); od != nil {
+		var openDocs, openSdocs ssa.Instruction
+		for _, call := range CallsIn(od, Callee("os.Open")) {
+			isSuffix := func(sfx string) bool {
+				return DerivesFrom(Arg(call, 0), func(v ssa.Value) bool {
+					s, ok := ConstString(v)
+					return ok && s == sfx
+				})
+			}
+			if isSuffix(".docs") {
+				openDocs = call.(ssa.Instruction)
+			}
+			if isSuffix(".sdocs") {
+				openSdocs = call.(ssa.Instruction)
+			}
+		}
+		if openDocs != nil && (openSdocs == nil || Dominates(openDocs, openSdocs)) {
+			sealedPrefersDocs = true
+		}
 	}
 	servedOK := func(st lifeState, o loaderOutcome) string {
 		after := st.fs.Clone()
@@ -79,6 +101,9 @@ func fileStateObligations(c *Ctx, which string) {
 			}
 			if !after[".docs"] && !after[".sdocs"] {
 				return "served as SEALED without a .docs/.sdocs file"
+			}
+			if after[".docs"] && after[".sdocs"] && sealedPrefersDocs {
+				return "served as SEALED with both .docs and .sdocs left on disk: Sealed.openDocs opens .docs first, but the positions of an index written together with .sdocs refer to the sorted file"
 			}
 		case "ACTIVE":
 			if !after[".meta"] || !after[".docs"] {
@@ -193,7 +218,15 @@ func fileStateObligations(c *Ctx, which string) {
 			case o.Kind == "FATAL":
 				report("violated", "never-fatal", ns, o, "the store cannot start after a crash in the middle of a deletion")
 			case !okDeleted(o, fs):
-				report("violated", "deletion-monotone", ns, o, "a fraction whose deletion has begun is served again after a crash (documents reappear)")
+				short := label
+				if i := strings.Index(short, "["); i > 0 {
+					short = short[:i]
+				}
+				msg := "a fraction whose deletion has begun is served again after a crash (documents reappear)"
+				if o.Kind == "SKIP" {
+					msg = "a fraction whose deletion has begun is neither finished off nor served after a crash: the loader skips the leftover and it stays on disk for ever"
+				}
+				report("violated", "deletion-monotone:"+short, ns, o, msg)
 			default:
 				c.Site(op.Pos, "deleting (%s): %s -> %s", label, fs, o.Kind)
 				// the loader finishing the deletion is itself re-entrant
